@@ -820,3 +820,34 @@ def check_unary_poly():
         else: obs.append(Ob(name, 'proved', f'{npaths} paths', time.time() - t0, 'mirsym/POLY + cofactor certificates', {'paths': npaths}))
     if len(cands) < 8: obs.append(Ob('ark: unary element functions found', 'inconclusive', f'only {len(cands)}', 0, 'mirsym'))
     return obs
+
+def check_min_select():
+    """`ConditionallySelectable for Element` of the minimal build (the constant-time ladder's only way of choosing between two
+    elements; the ladder check models it as a merge): for both values of the choice the result has exactly the four coordinates
+    of ONE operand - a when the choice is clear, b when it is set.  A mixed result (e.g. T taken from the other operand) is an
+    off-variety point (T Z != X Y) that every later encode/compare/add silently accepts."""
+    items = items_for('min'); M = curve_models('min'); obs = []
+    if True:
+        cands = [v for k, v in items.items() if k.endswith('::conditional_select') and v.impl_at and v.impl_at[0] == 'src/min_curve/element.rs']
+        if not cands: return [Ob('min:Element::conditional_select found', 'inconclusive', 'item not found in the MIR', 0, 'mirsym')]
+        it = cands[0]
+    for ch in (0, 1):
+        name = f'min:`ConditionallySelectable for Element`::conditional_select(a, b, {ch}) returns the four coordinates of {"b" if ch else "a"}'
+        ac = tuple(FE.sym('Fq', 'a' + n) for n in 'XYZT'); bc = tuple(FE.sym('Fq', 'b' + n) for n in 'XYZT')
+        def body(I, h, ch=ch, ac=ac, bc=bc):
+            h.locals['a'] = mk_element('min', *ac); h.locals['b'] = mk_element('min', *bc)
+            return I.call_item(it, [Ref(h, 'a', []), Ref(h, 'b', []), Agg('subtle::Choice', [ch])])
+        try: recs = run_paths(items, M, body)
+        except Exception as e:
+            obs.append(Ob(name, 'inconclusive', f'{type(e).__name__}: {e} :: ' + ' <- '.join(getattr(e, 'mir_stack', [])[:3]), 0, 'mirsym/POLY')); continue
+        want = bc if ch else ac; bad = False
+        for r in recs:
+            if 'panic' in r: obs.append(Ob(name, 'violated', 'panics: ' + r['panic'], 0, 'mirsym/POLY', None, {'kind': 'panic'})); bad = True; continue
+            got = element_coords('min', r['result'])
+            for nm, g, w in zip('XYZT', got, want):
+                c = compare_fe(f'{name}: coordinate {nm}', g, w, {}, rec=r)
+                if c.status != 'proved':
+                    c.status = 'violated' if c.status == 'violated' else c.status
+                    c.model = dict(c.model or {}, kind='min_select', build='min', choice=ch, coord=nm); obs.append(c); bad = True
+        if not bad: obs.append(Ob(name, 'proved', f'{len(recs)} path(s), 4 coordinates each', 0, 'mirsym (POLY) + z3 identity'))
+    return obs
